@@ -56,7 +56,7 @@ def parse_chunk_id(riff_data: bytes, position: int, byte_order: str) -> str:
         
     i = start
     while i != stop:
-        c = block_type[i].decode('ascii')
+        c = block_type[i].decode('ascii', errors='replace')
         if c >= ' ' and c <= 'z':
             identifier = identifier + c
         else:
